@@ -393,3 +393,55 @@ def all_variants(sources, only_props=None):
                 continue
             out.append(v)
     return out
+
+
+# ----------------------------------------------------------------------
+# robustness: renaming any local variable must not change any verdict
+FILE_PROPS = {
+    'mps.py': ['C01', 'C02', 'C03', 'C12', 'C13', 'C19'],
+    'mpo.py': ['C01', 'C02', 'C03', 'C05', 'C19'],
+    'bond_ops.py': ['C11', 'C12', 'C19'],
+    'operation.py': ['C03', 'C04', 'C19'],
+    'evolution.py': ['C02', 'C08', 'C09'],
+    'minimization.py': ['C02', 'C10'],
+    'krylov.py': ['C14'],
+    'opgraph.py': ['C05', 'C16', 'C17', 'C19'],
+    'opchain.py': ['C05'],
+    'hamiltonian.py': ['C07'],
+    'qnumber.py': ['C19'],
+}
+
+
+def gen_rename_locals(sources, every=1):
+    """one variant per (function, local variable): rename it consistently inside that function"""
+    k = 0
+    for file, props in FILE_PROPS.items():
+        src = sources[file]
+        tree = ast.parse(src)
+        for fn in ast.walk(tree):
+            if not isinstance(fn, ast.FunctionDef):
+                continue
+            params = {a.arg for a in fn.args.args}
+            nested = [n for n in ast.walk(fn) if isinstance(n, (ast.FunctionDef, ast.Lambda, ast.ClassDef)) and n is not fn]
+            if any(isinstance(n, ast.FunctionDef) for n in nested):
+                continue          # closures share names with the enclosing function
+            stored = set()
+            for n in ast.walk(fn):
+                if isinstance(n, ast.Name) and isinstance(n.ctx, ast.Store):
+                    stored.add(n.id)
+            for name in sorted(stored - params):
+                if name == '_' or name.startswith('__'):
+                    continue
+                # names captured by lambdas / nested classes are left alone
+                if any(isinstance(x, ast.Name) and x.id == name for nn in nested for x in ast.walk(nn)):
+                    continue
+                k += 1
+                if k % every:
+                    continue
+                new = name + '_rn'
+                occ = [n for n in ast.walk(fn) if isinstance(n, ast.Name) and n.id == name]
+                out = src
+                for n in sorted(occ, key=lambda x: (x.lineno, x.col_offset), reverse=True):
+                    out = splice(out, n, new)
+                # keyword arguments / f-string texts are untouched by construction
+                yield Variant(file, f'{fn.name}: rename local `{name}` (benign)', out, 'silent', props, site=fn.name)
